@@ -3,7 +3,6 @@ use crate::common::*;
 use binrw::{BinRead, BinWrite, Endian};
 use insim::identifiers::RequestId;
 use insim::insim::{RaceLaps, Small, SmallType};
-use insim_core::duration::{binrw_parse_duration, binrw_write_duration};
 use std::io::Cursor;
 use std::time::Duration;
 
@@ -77,92 +76,99 @@ fn c15_racelaps_hours_encode() {
     kani::cover!(h == 66, "66 hours (190 + 66 wraps a byte)");
 }
 
+// The duration helpers are exercised through the packet that uses each instantiation (public API, so
+// the harness does not depend on the helpers' generic signature):
+//   (u16, 1 ms)  IS_CPP.Time  body offset 26      (u16, 10 ms) IS_HLV.Time  body offset 4
+//   (u32, 1 ms)  IS_PSF.STime body offset 2       (u32, 10 ms) IS_CSC.Time  body offset 6
 macro_rules! duration_harnesses {
-    ($rt:ident, $enc:ident, $t:ty, $scale:expr, $n:expr) => {
-        /// every wire value of this field type decodes to a duration that re-encodes to it
+    ($wire:ident, $enc:ident, $huge:ident, $ty:ty, $field:ident, $off:expr, $size:expr, $t:ty, $scale:expr, $n:expr) => {
+        /// every wire value of this field decodes to a duration that re-encodes to it
         #[kani::proof]
-        #[kani::unwind(10)]
+        #[kani::unwind(34)]
         #[kani::stub(alloc::fmt::format, stub_format)]
-        fn $rt() {
+        fn $wire() {
             let w: $t = kani::any();
-            let img = w.to_le_bytes();
+            let mut img = [0u8; $size];
+            let wb = w.to_le_bytes();
+            let mut i = 0;
+            while i < $n { img[$off + i] = wb[i]; i += 1; }
             let mut c = Cursor::new(&img[..]);
-            let d = binrw_parse_duration::<$t, { $scale as u64 }, _>(&mut c, Endian::Little, ());
-            match &d {
-                Ok(d) => {
-                    assert!(d.as_millis() == (w as u128) * $scale, "C15:wire value scaled to milliseconds");
-                    let mut out = [0xAAu8; $n];
+            let r = <$ty>::read_le(&mut c);
+            match &r {
+                Ok(p) => {
+                    assert!(p.$field == Duration::from_millis(w as u64 * ($scale as u64)), "C15:wire value scaled to milliseconds");
+                    let mut out = [0xAAu8; $size];
                     let mut wr = Cursor::new(&mut out[..]);
-                    let r = binrw_write_duration::<$t, { $scale as u128 }, _>(d, &mut wr, Endian::Little, ());
-                    assert!(r.is_ok(), "C15:decoded duration re-encodes");
-                    assert!(<$t>::from_le_bytes(out) == w, "C15:time field round-trips");
-                    std::mem::forget(r);
+                    let e = p.write_le(&mut wr);
+                    assert!(e.is_ok(), "C15:decoded duration re-encodes");
+                    let mut i = 0;
+                    while i < $n { assert!(out[$off + i] == wb[i], "C15:time field round-trips"); i += 1; }
+                    std::mem::forget(e);
                 }
                 Err(_) => assert!(false, "C15:every wire value decodes"),
             }
             kani::cover!(w == <$t>::MAX, "largest wire value");
-            std::mem::forget(d);
+            std::mem::forget(r);
         }
 
-        /// an arbitrary duration is rounded down to the field's resolution, or refused
+        /// an arbitrary duration within 2^34 s is rounded down to the field's resolution, or refused
         #[kani::proof]
-        #[kani::unwind(10)]
+        #[kani::unwind(34)]
         #[kani::stub(alloc::fmt::format, stub_format)]
         fn $enc() {
             let secs: u64 = kani::any();
             let nanos: u32 = kani::any();
             kani::assume(secs <= (1u64 << 34) && nanos < 1_000_000_000);
-            let d = Duration::new(secs, nanos);
             let ms: u128 = (secs as u128) * 1000 + (nanos / 1_000_000) as u128;
-            let mut out = [0xAAu8; $n];
+            let mut p = <$ty>::default();
+            p.$field = Duration::new(secs, nanos);
+            let mut out = [0xAAu8; $size];
             let mut wr = Cursor::new(&mut out[..]);
-            let r = binrw_write_duration::<$t, { $scale as u128 }, _>(&d, &mut wr, Endian::Little, ());
+            let r = p.write_le(&mut wr);
             match &r {
                 Ok(()) => {
-                    let w = <$t>::from_le_bytes(out) as u128;
-                    assert!(w * $scale <= ms && ms < (w + 1) * $scale, "C15:duration rounded down to the field resolution");
+                    let mut wb = [0u8; $n];
+                    let mut i = 0;
+                    while i < $n { wb[i] = out[$off + i]; i += 1; }
+                    let w = <$t>::from_le_bytes(wb) as u128;
+                    assert!(w * ($scale as u128) <= ms && ms < (w + 1) * ($scale as u128), "C15:duration rounded down to the field resolution");
                     kani::cover!(w == <$t>::MAX as u128, "largest representable duration");
                 }
                 Err(_) => {
-                    assert!(ms >= (<$t>::MAX as u128 + 1) * $scale, "C15:representable duration refused");
+                    assert!(ms >= (<$t>::MAX as u128 + 1) * ($scale as u128), "C15:representable duration refused");
                     kani::cover!(true, "out-of-range duration refused");
                 }
             }
             std::mem::forget(r);
+            std::mem::forget(p);
         }
-    };
-}
 
-/// durations far beyond every field's range (up to Duration::MAX, i.e. millisecond counts that do
-/// not fit 64 bits) must be refused, never written as some in-range value
-macro_rules! duration_huge {
-    ($name:ident, $t:ty, $scale:expr, $n:expr) => {
+        /// durations far beyond the field's range (up to Duration::MAX: millisecond counts that do not
+        /// fit 64 bits) must be refused, never written as some in-range value
         #[kani::proof]
-        #[kani::unwind(10)]
+        #[kani::unwind(34)]
         #[kani::stub(alloc::fmt::format, stub_format)]
-        fn $name() {
+        fn $huge() {
             let secs: u64 = kani::any();
             let nanos: u32 = kani::any();
             kani::assume(secs > (1u64 << 34) && nanos < 1_000_000_000);
-            let d = Duration::new(secs, nanos);
-            let mut out = [0xAAu8; $n];
+            let mut p = <$ty>::default();
+            p.$field = Duration::new(secs, nanos);
+            let mut out = [0xAAu8; $size];
             let mut wr = Cursor::new(&mut out[..]);
-            let r = binrw_write_duration::<$t, { $scale as u128 }, _>(&d, &mut wr, Endian::Little, ());
+            let r = p.write_le(&mut wr);
             let refused = r.is_err();
             std::mem::forget(r);
+            std::mem::forget(p);
             assert!(refused, "C15:duration beyond the field range was written");
             kani::cover!(secs == u64::MAX, "Duration::MAX seconds");
         }
     };
 }
-duration_huge!(c15_duration_u16_s1_huge, u16, 1u128, 2);
-duration_huge!(c15_duration_u16_s10_huge, u16, 10u128, 2);
-duration_huge!(c15_duration_u32_s1_huge, u32, 1u128, 4);
-duration_huge!(c15_duration_u32_s10_huge, u32, 10u128, 4);
-duration_harnesses!(c15_duration_u16_s1_wire, c15_duration_u16_s1_encode, u16, 1u128, 2);
-duration_harnesses!(c15_duration_u16_s10_wire, c15_duration_u16_s10_encode, u16, 10u128, 2);
-duration_harnesses!(c15_duration_u32_s1_wire, c15_duration_u32_s1_encode, u32, 1u128, 4);
-duration_harnesses!(c15_duration_u32_s10_wire, c15_duration_u32_s10_encode, u32, 10u128, 4);
+duration_harnesses!(c15_duration_u16_s1_wire, c15_duration_u16_s1_encode, c15_duration_u16_s1_huge, insim::insim::Cpp, time, 26, 30, u16, 1, 2);
+duration_harnesses!(c15_duration_u16_s10_wire, c15_duration_u16_s10_encode, c15_duration_u16_s10_huge, insim::insim::Hlv, time, 4, 14, u16, 10, 2);
+duration_harnesses!(c15_duration_u32_s1_wire, c15_duration_u32_s1_encode, c15_duration_u32_s1_huge, insim::insim::Psf, stime, 2, 10, u32, 1, 4);
+duration_harnesses!(c15_duration_u32_s10_wire, c15_duration_u32_s10_encode, c15_duration_u32_s10_huge, insim::insim::Csc, time, 6, 18, u32, 10, 4);
 
 fn small_scale(discrim: u8) -> u128 {
     // SSP, SSG, STP, RTP are in hundredths of a second; NLI in milliseconds (InSim.txt)
